@@ -172,9 +172,6 @@ package core
 //@ func BlockChain.Rollback
 //@   requires bc != nil
 //@   ensures[C04] @lockbalance lockdepth(addr(bc.mu)) == old(lockdepth(addr(bc.mu)))
-//@ func BlockChain.WriteBlockWithState
-//@   requires bc != nil
-//@   ensures[C04] @lockbalance lockdepth(addr(bc.mu)) == old(lockdepth(addr(bc.mu)))
 //@ func BlockChain.InsertReceiptChain
 //@   requires bc != nil
 //@   ensures[C04] @lockbalance lockdepth(addr(bc.mu)) == old(lockdepth(addr(bc.mu)))
@@ -193,3 +190,66 @@ package core
 //@ func BlockChain.Processor
 //@   requires bc != nil
 //@   ensures[C04] @lockbalance lockdepth(addr(bc.procmu)) == old(lockdepth(addr(bc.procmu)))
+
+// ---- fork choice and head pointer (C02, C03, C04) ----------------------------------------------
+// Ghost: totaldiff[h] is the total difficulty recorded for block hash h; canon[n] the canonical
+// hash recorded for height n. The head block is the content of the atomic cell bc.currentBlock.
+//@ ghost totaldiff (Array (Array (_ BitVec 64) (_ BitVec 8)) Int)
+//@ ghost canon (Array (_ BitVec 64) (Array (_ BitVec 64) (_ BitVec 8)))
+//@ macro curhead(bc) = ref(atomicfield(bc.currentBlock))
+
+//@ func BlockChain.GetTd
+//@   trusted
+//@   ensures result != nil ==> big(result) == totaldiff[hash] && notconst(result)
+//@   assigns nothing
+
+//@ func HeaderChain.WriteTd
+//@   trusted
+//@   ensures result == nil ==> totaldiff == store(old(totaldiff), hash, old(big(td)))
+//@   ensures result != nil ==> totaldiff == old(totaldiff)
+//@   assigns totaldiff
+
+//@ func WriteCanonicalHash
+//@   trusted
+//@   ensures result == nil ==> canon == store(old(canon), number, hash)
+//@   ensures result != nil ==> canon == old(canon)
+//@   assigns canon
+
+// insert makes a block the head: the number index maps its height to its hash and the head
+// pointer designates it; it may only run after the block batch reached the database.
+//@ func BlockChain.insert
+//@   requires bc != nil && flushed
+//@   ensures[C03] @head curhead(bc) == block
+//@   ensures[C03] @canon canon[blocknum(block)] == blockhash(block)
+//@   ensures[C03] @others forall n uint64 :: n != blocknum(block) ==> canon[n] == old(canon[n])
+
+// a reorganisation may move the head and rewrite the number index
+//@ func BlockChain.reorg
+//@   trusted
+//@   assigns atomicfield(bc.currentBlock), canon
+
+//@ func BlockChain.WriteBlockWithState
+//@   requires bc != nil
+//@   ensures[C04] @lockbalance lockdepth(addr(bc.mu)) == old(lockdepth(addr(bc.mu)))
+//@   ensures[C02] @td err == nil ==> totaldiff[blockhash(block)] == old(totaldiff[blockparent(block)]) + blockdiff(block)
+//@   ensures[C02] @heavier err == nil && old(totaldiff[blockparent(block)]) + blockdiff(block) > old(totaldiff[blockhash(curhead(bc))]) ==> status == CanonStatTy
+//@   ensures[C02] @side err == nil && status == SideStatTy ==> old(totaldiff[blockparent(block)]) + blockdiff(block) <= old(totaldiff[blockhash(curhead(bc))])
+//@   ensures[C02] @canon_notlighter err == nil && status == CanonStatTy ==> old(totaldiff[blockparent(block)]) + blockdiff(block) >= old(totaldiff[blockhash(curhead(bc))])
+//@   ensures[C02] @sidehead err == nil && status == SideStatTy ==> curhead(bc) == old(curhead(bc))
+//@   ensures[C03] @canonhead err == nil && status == CanonStatTy ==> curhead(bc) == block && canon[blocknum(block)] == blockhash(block)
+//@   ensures[C02] @statuses err == nil ==> (status == CanonStatTy || status == SideStatTy)
+
+// Trusted partial frames: these callees write the database / caches / tries but do not modify
+// big.Int objects the caller holds (total difficulties, block difficulty).
+//@ func WriteBlock
+//@   keeps big
+//@ func WriteBlockReceipts
+//@   keeps big
+//@ func WriteTxLookupEntries
+//@   keeps big
+//@ func WritePreimages
+//@   keeps big
+//@ func HeaderChain.GetHeader
+//@   keeps big
+//@ func BlockChain.GetHeaderByNumber
+//@   keeps big
